@@ -118,6 +118,8 @@ pub struct Outcome {
     pub hits_req: Vec<u64>,
     pub hits_after: u64,
     pub closed_by_server: bool,
+    /// simulated connection id (to match per-connection faults)
+    pub conn: u64,
 }
 
 fn parse_responses(raw: &[u8]) -> Vec<(u16, Vec<u8>)> {
@@ -170,6 +172,7 @@ async fn peer_task(net: Arc<Net>, addr: SocketAddr, c: Conn, hits: Arc<AtomicU64
         Some(id) => id,
         None => return o,
     };
+    o.conn = id;
     let (bytes, expect_responses, cut, then): (Vec<u8>, usize, Option<usize>, u8) = match &c.kind {
         Kind::Get(p) => (request(PATHS[*p]), 1, None, 0),
         Kind::Pipelined(a, b) => ([request(PATHS[*a]), request(PATHS[*b])].concat(), 2, None, 0),
@@ -474,6 +477,12 @@ impl Scenario for C18Http {
                                 if *status != 403 || !body.is_empty() {
                                     v = violation("forbidden-peer-served", format!("peer {} lies in none of {:?} but got status {} with a {}-byte body for {}", PEER_POOL[c.peer], plan.allow.as_ref().map(|a| a.iter().map(|e| ALLOW_POOL[*e]).collect::<Vec<_>>()), status, body.len(), PATHS[*pi]));
                                 }
+                                continue;
+                            }
+                            // (a connection whose peer address could not be read is, with an allowlist
+                            // configured, treated as outside it: 403 with an empty body is then correct)
+                            let peer_unreadable = faults.iter().any(|f| f.kind == "peer_addr_fail" && f.stream == format!("peer:{}", o.conn));
+                            if peer_unreadable && *status == 403 && body.is_empty() {
                                 continue;
                             }
                             if *status != 200 {
